@@ -29,35 +29,48 @@ Lemma facade_write_ok pf s w s1 tr r :
   safe pf s -> write_no_hit w = true -> facade_write pf s w = (s1, tr, r) ->
   csteps c0 tr = inl c0 /\ safe pf s1.
 Proof.
-  intros Hs Hw H. destruct s as [ini nl cf], w as [dry out]. unfold safe in *; simpl in *.
-  destruct out as [| | |hid]; [| | |discriminate Hw];
+  intros Hs Hw H. destruct s as [ini nl cf cc cn], w as [dry out]. unfold safe in *; simpl in *.
+  destruct out as [| | |hid|logged]; [| | |discriminate Hw|destruct logged];
     destruct ini, dry, pf; try (destruct Hs as [Hs|Hs]; discriminate Hs);
-    destruct cf as [[|n]|];
-    unfold facade_write, ev_write, forge_log, ctrl_commit, sql_commit, lock_frame, begin_frame, root in H; simpl in H;
+    destruct cn, cc as [[|m]|], cf as [[|n]|];
+    unfold facade_write, ev_write, forge_log, ctrl_commit, ctrl_rollback, sql_commit, commit_acts, lock_frame, begin_frame, root in H; simpl in H;
     inversion H; subst; clear H; simpl; unfold cstep; simpl; rewrite ?Z.eqb_refl; simpl;
     (split; [reflexivity | auto]).
 Qed.
 
-(* ---------- atomic bulk: the queue of the transaction object = the logs pending in the open transaction ---------- *)
-Lemma bulk_atomic_inv cont ws : forall s err q s2 stk2 tr err2,
-  forallb write_no_hit ws = true ->
-  bulk_atomic_elems cont [(true, q); root] s err ws = (s2, stk2, tr, err2) ->
-  exists q2, stk2 = [(true, q2); root] /\
-             csteps {| c_open := true; c_pending := q; c_ready := [] |} tr = inl {| c_open := true; c_pending := q2; c_ready := [] |}.
+(* ---------- atomic bulk: the queue of the transaction object = the logs pending in the open transaction;
+   after a cancellation the transaction is closed (rolled back by database/sql) and nothing more happens ---------- *)
+Lemma bulk_atomic_cancelled cont ws : forall stk s err,
+  cancelled s = true -> bulk_atomic_elems cont stk s err ws = (s, stk, [], err).
 Proof.
-  induction ws as [|w ws IH]; intros s err q s2 stk2 tr err2 Hn H; simpl in *.
-  - inversion H; subst. exists q. split; reflexivity.
-  - apply andb_true_iff in Hn. destruct Hn as [Hw Hn].
+  induction ws as [|w ws IH]; intros stk s err Hc; simpl; [reflexivity|]. rewrite Hc. simpl. apply IH; exact Hc.
+Qed.
+
+Lemma bulk_atomic_inv cont ws : forall s err q s2 stk2 tr err2,
+  forallb write_no_hit ws = true -> cancelled s = false ->
+  bulk_atomic_elems cont [(true, q); root] s err ws = (s2, stk2, tr, err2) ->
+  (cancelled s2 = false /\ exists q2, stk2 = [(true, q2); root] /\
+     csteps {| c_open := true; c_pending := q; c_ready := [] |} tr = inl {| c_open := true; c_pending := q2; c_ready := [] |})
+  \/ (cancelled s2 = true /\ err2 = true /\ csteps {| c_open := true; c_pending := q; c_ready := [] |} tr = inl c0).
+Proof.
+  induction ws as [|w ws IH]; intros s err q s2 stk2 tr err2 Hn Hc H; simpl in *.
+  - inversion H; subst. left. split; [exact Hc|]. exists q. split; reflexivity.
+  - apply andb_true_iff in Hn. destruct Hn as [Hw Hn]. rewrite Hc in H. simpl in H.
     destruct (err && negb cont).
     + eapply IH; eassumption.
     + destruct w as [dry out]. unfold write_no_hit in Hw. simpl in *.
-      destruct out as [| | |hid]; [| | |discriminate Hw];
-        unfold ev_write, forge_log in H; simpl in H.
+      destruct out as [| | |hid|logged]; [| | |discriminate Hw|];
+        unfold ev_write, forge_log in H; simpl in H; rewrite Hc in H; simpl in H.
+      4: { (* cancelled inside the atomic transaction *)
+        rewrite bulk_atomic_cancelled in H by (destruct logged; reflexivity).
+        inversion H; subst; clear H. right. destruct logged; simpl; (split; [reflexivity|]); (split; [apply orb_true_r|]); reflexivity. }
       all: match type of H with context [bulk_atomic_elems ?a ?b ?c ?d ?e] =>
              destruct (bulk_atomic_elems a b c d e) as [[[s3 stk3] tr3] err3] eqn:E end;
            inversion H; subst; clear H;
-           destruct (IH _ _ _ _ _ _ _ Hn E) as [q2 [Hq Hc]];
-           exists q2; (split; [exact Hq | simpl; exact Hc]).
+           (eapply IH in E; [|exact Hn|try exact Hc; simpl; exact Hc]);
+           (destruct E as [[Hc2 [q2 [Hq Hcs]]]|[Hc2 [He Hcs]]];
+            [left; split; [exact Hc2|]; exists q2; split; [exact Hq | simpl; exact Hcs]
+            | right; split; [exact Hc2|]; split; [exact He | simpl; exact Hcs]]).
 Qed.
 
 Lemma bulk_atomic_keeps_init cont ws : forall stk s err s2 stk2 tr err2,
@@ -65,13 +78,14 @@ Lemma bulk_atomic_keeps_init cont ws : forall stk s err s2 stk2 tr err2,
 Proof.
   induction ws as [|w ws IH]; intros stk s err s2 stk2 tr err2 H; simpl in H.
   - inversion H; reflexivity.
-  - destruct (err && negb cont); [eapply IH; eassumption|].
+  - destruct (cancelled s || (err && negb cont)); [eapply IH; eassumption|].
     destruct (ev_write stk true s {| w_dry := false; w_out := w_out w |}) as [[[s1 stk1] tr1] x] eqn:E1.
     destruct (bulk_atomic_elems cont stk1 s1 (err || negb (res_ok x)) ws) as [[[s3 stk3] tr3] err3] eqn:E.
     inversion H; subst; clear H.
     rewrite (IH _ _ _ _ _ _ _ E).
     unfold ev_write, forge_log in E1. simpl in E1.
-    destruct (w_out w); simpl in E1;
+    destruct (cancelled s); [inversion E1; subst; reflexivity|].
+    destruct (w_out w) as [| | |hid|logged]; simpl in E1; try destruct logged;
       repeat match type of E1 with context [let '(_, _) := ?x in _] => destruct x end;
       inversion E1; subst; reflexivity.
 Qed.
@@ -84,7 +98,7 @@ Proof.
   induction ws as [|w ws IH]; intros s err s2 tr err2 Hs Hn H; simpl in *.
   - inversion H; subst. split; [reflexivity | exact Hs].
   - apply andb_true_iff in Hn. destruct Hn as [Hw Hn].
-    destruct (err && negb cont); [eapply IH; eassumption|].
+    destruct (cancelled s || (err && negb cont)); [eapply IH; eassumption|].
     destruct (facade_write pf s {| w_dry := false; w_out := w_out w |}) as [[s1 tr1] x] eqn:E1.
     destruct (bulk_plain_elems pf cont s1 (err || negb (res_ok x)) ws) as [[s3 tr3] err3] eqn:E.
     inversion H; subst; clear H.
@@ -94,26 +108,30 @@ Proof.
     split; [|exact Hs2]. rewrite csteps_app, Hc. exact Hc2.
 Qed.
 
+Lemma sql_commit_init s s' c : sql_commit s = (s', c) -> initializing s' = initializing s.
+Proof.
+  destruct s as [ini nl cf cc cn]. unfold sql_commit. simpl. destruct cc as [[|m]|], cf as [[|n]|]; simpl; intros H; inversion H; reflexivity.
+Qed.
+
 Lemma bulk_ok pf atomic cont s ws s2 tr :
-  safe pf s -> forallb write_no_hit ws = true -> bulk pf atomic cont s ws = (s2, tr) ->
+  safe pf s -> cancelled s = false -> forallb write_no_hit ws = true -> bulk pf atomic cont s ws = (s2, tr) ->
   csteps c0 tr = inl c0 /\ safe pf s2.
 Proof.
-  intros Hs Hn H. unfold bulk in H. destruct atomic.
+  intros Hs Hcn Hn H. unfold bulk in H. destruct atomic.
   - destruct (bulk_atomic_elems cont [begin_frame; root] s false ws) as [[[s1 stk] tr1] err] eqn:E.
     pose proof (bulk_atomic_keeps_init _ _ _ _ _ _ _ _ _ E) as Hi.
-    destruct (bulk_atomic_inv _ _ _ _ _ _ _ _ _ Hn E) as [q2 [Hq Hc]].
-    destruct err.
-    + inversion H; subst; clear H. split.
-      * simpl. rewrite csteps_app, Hc. reflexivity.
-      * unfold safe in *. rewrite Hi. exact Hs.
-    + subst stk. unfold ctrl_commit, sql_commit in H. simpl in H.
-      assert (Hsafe : forall c, safe pf (with_cfail s1 c)).
-      { intros c. unfold safe in *. simpl. rewrite Hi. exact Hs. }
-      destruct (cfail s1) as [[|n]|]; inversion H; subst; clear H; (split; [|auto]).
-      * simpl. rewrite csteps_app, Hc. reflexivity.
-      * simpl. rewrite csteps_app, Hc. simpl. apply csteps_publish_queue.
-      * simpl. rewrite csteps_app, Hc. simpl. apply csteps_publish_queue.
-      * unfold safe in *. rewrite Hi. exact Hs.
+    assert (Hs1 : safe pf s1) by (unfold safe in *; rewrite Hi; exact Hs).
+    destruct (bulk_atomic_inv _ _ _ _ _ _ _ _ _ Hn Hcn E) as [[Hc1 [q2 [Hq Hc]]]|[Hc1 [He Hc]]].
+    + destruct err.
+      * inversion H; subst; clear H. split; [|exact Hs1].
+        simpl. rewrite csteps_app, Hc. unfold ctrl_rollback. rewrite Hc1. reflexivity.
+      * subst stk. unfold ctrl_commit in H. simpl in H.
+        destruct (sql_commit s1) as [s3 c] eqn:Ec. pose proof (sql_commit_init _ _ _ Ec) as Hi3.
+        assert (Hs3 : safe pf s3) by (unfold safe in *; rewrite Hi3, Hi; exact Hs).
+        destruct c; inversion H; subst; clear H; (split; [|exact Hs3]);
+          simpl; rewrite csteps_app, Hc; simpl; try reflexivity. apply csteps_publish_queue.
+    + subst err. inversion H; subst; clear H. split; [|exact Hs1].
+      simpl. rewrite csteps_app, Hc. unfold ctrl_rollback. rewrite Hc1. reflexivity.
   - destruct (bulk_plain_elems pf cont s false ws) as [[s1 tr1] e] eqn:E.
     inversion H; subst; clear H. eapply bulk_plain_ok; eassumption.
 Qed.
@@ -121,9 +139,11 @@ Qed.
 Lemma eop_ok pf s o s2 tr :
   safe pf s -> eop_no_hit o = true -> eop_run pf s o = (s2, tr) -> csteps c0 tr = inl c0 /\ safe pf s2.
 Proof.
-  intros Hs Hn H. destruct o as [w|a c ws|n|]; simpl in *.
-  - destruct (facade_write pf s w) as [[s1 tr1] r] eqn:E. inversion H; subst. eapply facade_write_ok; eassumption.
-  - eapply bulk_ok; eassumption.
+  intros Hs Hn H. destruct o as [w|a c ws|n|n|]; simpl in *.
+  - destruct (facade_write pf (with_cancelled s false) w) as [[s1 tr1] r] eqn:E. inversion H; subst.
+    eapply (facade_write_ok pf (with_cancelled s false) w); [exact Hs | exact Hn | exact E].
+  - apply (bulk_ok pf a c (with_cancelled s false) ws s2 tr Hs eq_refl Hn H).
+  - inversion H; subst. split; [reflexivity | exact Hs].
   - inversion H; subst. split; [reflexivity | exact Hs].
   - inversion H; subst. split; [reflexivity | exact Hs].
 Qed.
@@ -142,11 +162,11 @@ Qed.
 
 Theorem run_check_ok pf init n ops :
   (pf = false \/ init = false) -> forallb eop_no_hit ops = true ->
-  check (snd (run_ops pf {| initializing := init; next_log := n; cfail := None |} ops)) = VOk.
+  check (snd (run_ops pf (start init n) ops)) = VOk.
 Proof.
   intros Hs Hn. unfold check.
-  destruct (run_ops pf {| initializing := init; next_log := n; cfail := None |} ops) as [s2 tr] eqn:E. simpl.
-  rewrite (run_ops_ok pf ops {| initializing := init; next_log := n; cfail := None |} s2 tr Hs Hn E). reflexivity.
+  destruct (run_ops pf (start init n) ops) as [s2 tr] eqn:E. simpl.
+  rewrite (run_ops_ok pf ops (start init n) s2 tr Hs Hn E). reflexivity.
 Qed.
 
 (* the model of the code: every history without idempotent replays, on initializing and in-use ledgers alike *)
